@@ -174,32 +174,36 @@ def pushFromCache (o : Obj) : Obj × List WEv :=
   let (o, e) := replayCache o.cache o
   ({ o with cacheSize := 0 }, e)
 
+/-- `set_fdt_id_from_pkt` -/
+def setFdtId (o : Obj) (p : Pkt) : Obj :=
+  if o.fdtId.isNone ∧ p.toi = 0 then { o with fdtId := p.fdtId } else o
+
+/-- `set_oti_from_pkt` (a parsed packet with OTI always has a transfer length) -/
+def setOti (o : Obj) (p : Pkt) : Obj :=
+  match o.oti, p.fti with
+  | none, some fti => { o with oti := some fti.oti, tlen := if o.tlen.isNone then some fti.len else o.tlen }
+  | _, _ => o
+
+/-- the end of `push`, after `push_from_cache`: cache the packet or push it to its block -/
+def pushTail (o : Obj) (p : Pkt) : Obj × List WEv :=
+  -- the writer refused the object / the object ended while the cache was replayed
+  if o.st ≠ .receiving then (o, []) else
+  if o.oti.isNone then
+    -- `cache(pkt)`: refuse when the cache already holds `max_size_allocated` bytes or more
+    if o.cacheSize ≥ o.maxCache then error o false
+    else ({ o with cache := p :: o.cache, cacheSize := o.cacheSize + p.dlen }, [])
+  else
+    match pushToBlock o p with
+    | .error o' => error o' false
+    | .ok r => r
+
 /-- `push` -/
 def push (o : Obj) (p : Pkt) : Obj × List WEv :=
   if o.st ≠ .receiving then (o, []) else
-  -- set_fdt_id_from_pkt
-  let o := if o.fdtId.isNone ∧ p.toi = 0 then { o with fdtId := p.fdtId } else o
-  -- set_oti_from_pkt (a parsed packet with OTI always has a transfer length)
-  let o := match o.oti, p.fti with
-    | none, some fti => { o with oti := some fti.oti, tlen := if o.tlen.isNone then some fti.len else o.tlen }
-    | _, _ => o
-  let o := initBlocksPartitioning o
-  let (o, e1) := initObjectWriter o
-  let (o, e2) := pushFromCache o
-  -- the writer refused the object / the object ended while the cache was replayed
-  if o.st ≠ .receiving then (o, e1 ++ e2) else
-  if o.oti.isNone then
-    -- `cache(pkt)`: refuse when the cache already holds `max_size_allocated` bytes or more
-    if o.cacheSize ≥ o.maxCache then
-      let (o, e3) := error o false
-      (o, e1 ++ e2 ++ e3)
-    else ({ o with cache := p :: o.cache, cacheSize := o.cacheSize + p.dlen }, e1 ++ e2)
-  else
-    match pushToBlock o p with
-    | .error o' =>
-      let (o, e3) := error o' false
-      (o, e1 ++ e2 ++ e3)
-    | .ok (o, e3) => (o, e1 ++ e2 ++ e3)
+  let a := initObjectWriter (initBlocksPartitioning (setOti (setFdtId o p) p))
+  let b := pushFromCache a.1
+  let c := pushTail b.1 p
+  (c.1, a.2 ++ b.2 ++ c.2)
 
 /-- `attach_fdt` -/
 def attachFdt (o : Obj) (id : Nat) (fdt : FdtAbs) : Obj × Bool × List WEv :=
